@@ -349,3 +349,13 @@ package processor
 //@   ensures [split-only-if-nothing-up-to-it-needs-order] implies(result0, forall(k, 0, result1+1, !dataProcessors[k].inputOrderMatters))
 //@   ensures [split-only-if-something-up-to-it-ignores-order] implies(result0, exists(k, 0, result1+1, dataProcessors[k].ignoresInputOrder))
 //@ end
+
+// C19: the file named by `| inputlookup <file>` comes from the query text.  It
+// is opened only as lookups directory + a name that passed the lookup-name
+// validator (lookups.IsSafeLookupName, string-level meaning ASSUMED there).
+//@ func (*inputlookupProcessor).Process
+//@   props C19
+//@   requires p != nil
+//@   site call os.Open #1:
+//@     assert [lookup-file-opened-only-below-the-lookups-directory] uf("confined", bool, arg0)
+//@ end
